@@ -29,9 +29,10 @@ Theorem C15_stop_returns_clean : forall s s', Inv s -> lstep s LStopWaitConns = 
 Proof. exact stop_returns_clean. Qed.
 Print Assumptions C15_stop_returns_clean.
 
-(* (3) while running (indeed everywhere outside Stop's close phase) the registry is exactly the set of connections
+(* (3) while running (indeed everywhere except between Stop's first snapshot and its return: exact_phase p := p <> PStop3r /\ p <> PStop4)
+   the registry is exactly the set of connections
    between their registration and their deregistration *)
-Theorem C15_registry_exact : forall s, Inv s -> pc s <> PStop4 ->
+Theorem C15_registry_exact : forall s, Inv s -> exact_phase (pc s) ->
   forall id, In id (registry s) <-> exists c, In c (conns s) /\ ct_id c = id /\ ct_st c = CRegistered.
 Proof. exact registry_exact. Qed.
 Print Assumptions C15_registry_exact.
@@ -64,13 +65,31 @@ Print Assumptions C15_stop_first_steps_enabled.
 Example C15_ex_live :
   let s := lrun (init true true) [LStartBegin; LStartOpen; LStartSpawnPlain; LStartSpawnTLS; LAcceptOk 0; LAcceptOk 1; LAcceptOk 0; LAdmit 2;
                                   LStopBegin; LStopCloseLis] in
-  stop_wait (pc s) = true /\ mu s = 10 /\
-  exists ls s', exec s ls = Some s' /\ pc s' = PStopped /\ length ls = 9.
+  stop_wait (pc s) = true /\ mu s = 11 /\
+  exists ls s', exec s ls = Some s' /\ pc s' = PStopped /\ length ls = 10.
 Proof. exact live_ex. Qed.
+
+(* (5) a socket stays tracked until its goroutine returns: in every reachable state every connection goroutine that has not
+   returned has its socket in the live set - which is why Stop's second snapshot (it closes exactly the sockets in the live set,
+   LStopCloseConns) reaches every goroutine Stop then waits for, whenever it registered *)
+Theorem C15_tracked_until_returned : forall p t ls c, let s := lrun (init p t) ls in
+  In c (conns s) -> not_done c = true -> In (ct_id c) (live s).
+Proof. intros p t ls c s. exact (i_live s (reachable_inv p t ls) c). Qed.
+Print Assumptions C15_tracked_until_returned.
+
+(* Stop takes two snapshots: the registry (LStopCloseReg), then the tracked sockets (LStopCloseConns).  A connection accepted before
+   Stop that registers BETWEEN them (LAdmit 3 below) is in the second snapshot: its socket is closed, it finishes, Stop returns clean *)
+Example C15_ex_registers_between_snapshots :
+  let ls := [LStartBegin; LStartOpen; LStartSpawnPlain; LStartSpawnTLS; LAcceptOk 0; LAdmit 2; LAcceptOk 1;
+             LStopBegin; LStopCloseLis; LAcceptFail 0; LAcceptFail 1; LStopWaitAccept; LStopCloseReg; LAdmit 3; LStopCloseConns] in
+  let s := lrun (init true true) ls in
+  pc s = PStop4 /\ registry s = [3] /\ (forall c, In c (conns s) -> ct_open c = false) /\
+  let s' := lrun s [LFinish 2; LFinish 3; LStopWaitConns] in pc s' = PStopped /\ registry s' = [] /\ conn_wg s' = 0.
+Proof. vm_compute. repeat split; try reflexivity. intros c [<-|[<-|[]]]; reflexivity. Qed.
 
 Example C15_ex :
   let ls := [LStartBegin; LStartOpen; LStartSpawnPlain; LStartSpawnTLS; LAcceptOk 0; LAcceptOk 1; LAdmit 2; LHandshakeFail 3;
-             LStopBegin; LStopCloseLis; LAcceptFail 0; LAcceptFail 1; LStopWaitAccept; LStopCloseConns; LFinish 2; LStopWaitConns] in
+             LStopBegin; LStopCloseLis; LAcceptFail 0; LAcceptFail 1; LStopWaitAccept; LStopCloseReg; LStopCloseConns; LFinish 2; LStopWaitConns] in
   let s := lrun (init true true) ls in
   pc s = PStopped /\ registry s = [] /\ open_lis s = [] /\ conn_wg s = 0 /\ accept_wg s = 0 /\ length (conns s) = 2.
 Proof. exact lifecycle_ex. Qed.
